@@ -90,8 +90,10 @@ def corruption_class(spec):
             return "defaultdict-subclass"
         return "dict-other"
     if tag == "objarray":
-        # np.array(tmp, dtype="O") is used for every rank but 1: cells that are sequences (and, for rank 0, any cell whose
-        # state has an iterable content: list/tuple/set, or an empty dict) become axes
+        # D10 (repaired): np.array(tmp, dtype="O") was used for every rank but 1: cells that are sequences (and, for rank 0, any
+        # cell whose state has an iterable content: list/tuple/set, or an empty dict) became axes.  The loader fills
+        # np.empty(shape) cell by cell now; an array of this class that comes back different means the repair is gone, and it
+        # is reported under the old class name
         if len(spec[1]) != 1 and any(x[0] in ("list", "tuple", "mylist", "namedtuple", "mytuple", "ndarray", "objarray", "matrix", "masked") or
                                      (not spec[1] and x[0] in ("set",) + DICT_TAGS) for x in spec[2]):
             return "objarray-of-sequences"
@@ -109,14 +111,31 @@ def differs(rec):
     return rec.get("dump", "").startswith("ok:") and rec.get("load", "").startswith("ok:") and not rec.get("same")
 
 
+# D10 / C13-F1 (repaired: object arrays of every rank keep their shape): the former witnesses and the other shapes of the defect.
+# Each of them must ROUND-TRIP (dump ok, load ok, same value) -- a refusal is not enough here: before the repair the rank-0
+# arrays dumped but could not be loaded (AttributeError)
+OBJARR_FIXED = [
+    ["objarray", [2, 2], [["list", [["int", 1], ["int", 2]]], ["list", [["int", 3], ["int", 4]]],
+                          ["list", [["int", 5], ["int", 6]]], ["list", [["int", 7], ["int", 8]]]]],      # D10: came back with shape (2,2,2)
+    ["objarray", [], [["int", 3]]],                                                                      # rank 0: load raised
+    ["objarray", [], [["list", [["int", 1], ["int", 2]]]]],                                              # rank 0 holding a list: came back as shape (2,)
+    ["objarray", [], [["tuple", []]]],                                                                   # the cell is the object that is also the shape
+    ["objarray", [], [["dict", []]]], ["objarray", [], [["set", [["int", 1]]]]], ["objarray", [], [["none"]]],
+    ["objarray", [1, 2, 1], [["tuple", [["int", 1], ["int", 2]]], ["list", []]]],
+    ["objarray", [2, 3], [["tuple", [["int", i]]] for i in range(6)]],                                    # came back with shape (2,3,1)
+    ["objarray", [2, 2], [["list", [["int", 1]]], ["list", [["int", 1], ["int", 2]]], ["tuple", []], ["str", "ab"]]],   # ragged cells
+    ["objarray", [2, 0], []], ["objarray", [0, 2], []], ["objarray", [0], []], ["objarray", [1, 0, 3], []],
+    ["objarray", [2, 1], [["objarray", [], [["list", [["int", 1]]]]], ["ndarray", "<f8", [2], "C", 1, False]]],   # arrays as cells
+    ["list", [["list", [["int", 1], ["int", 2]]], ["objarray", [], [["ref", 0]]], ["objarray", [1, 1], [["ref", 0]]]]],   # the cell is a reference to an earlier list
+    ["objarray", [3], [["tuple", [["int", 0], ["int", 1]]], ["dict", [[["int", 0], ["int", 1]]]], ["str", "s"]]],       # rank 1 (never affected)
+]
+
 # fixed witnesses of the open findings, replayed on every run
-WITNESSES = [
+WITNESSES = OBJARR_FIXED + [
     ["dict", [[["bool", False], ["str", "x"]], [["bool", True], ["str", "y"]]]],                         # D07
     ["dict", [[["int", 1], ["str", "a"]], [["str", "1"], ["str", "b"]]]],                                # D08 (repaired: dumps raises ValueError)
     ["frozenset", [["int", 1]]],                                                                         # D09
     ["deque", [["int", 1], ["int", 2]]],                                                                 # D09
-    ["objarray", [2, 2], [["list", [["int", 1], ["int", 2]]], ["list", [["int", 3], ["int", 4]]],
-                          ["list", [["int", 5], ["int", 6]]], ["list", [["int", 7], ["int", 8]]]]],      # D10
     ["dict", [[["str", "a"], ["property"]], [["str", "b"], ["int", 2]]]],                                # D26
     ["myint", 5], ["mystr", "s"],                                                                        # scalar subclass
     ["mydefaultdict", "list", [[["str", "a"], ["int", 1]]]],                                             # defaultdict subclass
@@ -125,7 +144,6 @@ WITNESSES = [
     ["strcp", [55357, 56832]],                                                                           # surrogate pair joined
     ["dict", [[["int", 1], ["property"]], [["str", "b"], ["int", 2]]]],                                  # D26 with misaligned key types: load raises
     ["dict", [[["none"], ["int", 1]]]],                                                                  # None key: load raises (a refusal)
-    ["objarray", [], [["int", 3]]],                                                                      # rank-0: load raises
     # D08 (repaired), the other shapes of two keys with one JSON spelling: all refused by dumps with ValueError ...
     ["dict", [[["str", "1"], ["str", "a"]], [["int", 1], ["str", "b"]]]],
     ["odict", [[["float", "0x1.8p+0"], ["str", "a"]], [["str", "1.5"], ["str", "b"]]]],
@@ -185,6 +203,15 @@ def run(R, only=None):
                 R.obligation_broken("C04 guard vs implementation", f"c04_ok holds of {json.dumps(specs[i])[:300]} but the implementation returns a different value")
     R.notes["guard"] = (f"c04_ok (coq/io/CodecGuards.v) holds of {nok}/{len(idx)} modelled generated values; for each of them the model and the implementation "
                         "are faithful or refuse")
+    # ---- the repaired object-array witnesses must round-trip, not merely "refuse" (D10 / C13-F1)
+    if not only:
+        for i in range(len(OBJARR_FIXED)):
+            r = recs[i]
+            if r.get("build") == "ok" and not (r.get("dump", "").startswith("ok:") and r.get("load", "").startswith("ok:") and r.get("same")):
+                if not differs(r):        # a silently different value is reported by the oracle below, under the same class
+                    R.violation({"kind": "fixed-witness-does-not-round-trip", "class": "objarray-of-sequences"},
+                                f"object array {json.dumps(specs[i])[:200]} (finding D10 / C13-F1, repaired) no longer round-trips: dump {r.get('dump', '')[:60]} "
+                                f"load {r.get('load', '')[:120]}", {"spec": specs[i], "observed": {"dump": r.get("dump", "")[:300], "load": r.get("load", "")[:300]}})
     # ---- the property's oracle on the implementation: every silently different value is attributed to its minimal failing parts
     failing = [i for i, r in enumerate(recs) if differs(r)]
     subs, owner = [], []
@@ -235,7 +262,8 @@ def run(R, only=None):
                         {"spec": specs[i], "minimal": m, "observed": {"load": recs[i]["load"][:600], "original": recs[i].get("t0", "")[:600]}})
     j = len(WITNESSES) if not only else 0
     R.sample({"spec": specs[j], "implementation": {a: (recs[j].get(a) or "")[:300] for a in ("dump", "load")}, "model": "equal texts"})
-    R.sample({"spec": specs[0], "implementation": {"original": recs[0].get("t0"), "loaded": recs[0].get("load")}, "model": "predicts the same corrupted value"})
+    k0 = len(OBJARR_FIXED) + 2 if not only else 0       # frozenset({1}) (D09, open)
+    R.sample({"spec": specs[k0], "implementation": {"original": recs[k0].get("t0"), "loaded": recs[k0].get("load")}, "model": "predicts the same corrupted value"})
     R.notes["rule"] = ("values from gen_values(supported=False) (+ fixed finding witnesses): normalised archive text and canonical text of loads(dumps(v)) -- including the "
                        "predicted corruption or exception class -- vs the Coq model; oracle: fingerprint before/after dumps, loaded value vs original, each silent difference "
                        "attributed to its minimal failing sub-value; non-trivial = value built; distinct = distinct specs")
